@@ -27,6 +27,7 @@ import (
 	"net/url"
 	"os"
 	"path"
+	"path/filepath"
 	"sort"
 	"strconv"
 	"strings"
@@ -611,6 +612,10 @@ func (b Browse) ServeArchive(w http.ResponseWriter, r *http.Request, dirPath str
 
 		if path == dirPath {
 			return nil // Skip the containing directory
+		}
+
+		if bc.Fs.IsHidden(info) {
+			return filepath.SkipDir // Hidden files (and everything below a hidden directory) stay out of archives
 		}
 
 		var file io.ReadCloser
